@@ -54,30 +54,43 @@ def bs_str(bs):
 
 
 # ------------------------------------------------------------------ chains
-def driver_list(n_values, k):
-    ds = [("run", None, "tuple", True), ("fill_compute_seq", None, "tuple", True), ("fill_seq", None, "tuple", True)]
-    for j, bs in enumerate(bufsizes(n_values)):
-        ds.append(("split", bs, "tuple", True))
+def driver_list(n_values, k, reduced=False):
+    """(driver, bufsize, branch form, copy_buf, place among sibling branches).
+
+    reduced: flows of pairs with equal contexts lie between bare data and differing contexts, which get the full
+    list; they are run through every driver but with two bufsizes only."""
+    ds = [("run", None, "tuple", True, "alone"), ("fill_compute_seq", None, "tuple", True, "alone"),
+          ("fill_seq", None, "tuple", True, "alone")]
+    sizes = bufsizes(n_values)
+    if reduced:
+        sizes = [sizes[k % len(sizes)], sizes[(k + 2) % len(sizes)]]
+    for j, bs in enumerate(sizes):
+        ds.append(("split", bs, "tuple", True, "alone"))
         if (j + k) % 3 == 0:
-            ds.append(("split", bs, "fcseq", False))
+            ds.append(("split", bs, "fcseq", False, "alone"))
+    # the chain as one branch among others (a context-changing branch before it, an ordinary one after it)
+    for j, place in enumerate(("middle", "first", "last")):
+        ds.append(("split", sizes[(k + j) % len(sizes)], "tuple" if (k + j) % 2 else "fcseq", True, place))
     return ds
 
 
 def replay_chain(ctx, mini, rec, k):
-    ch, n_values, pairs = rec["ch"], rec["N"], rec["pairs"]
+    ch, n_values, pairs = rec["ch"], rec["N"], rec["fk"]
     exp = [flowlib.norm_spec_val(v) for v in rec["out"]]
     size = (len(ch["pre"]) + len(ch["post"]), n_values, fl.chain_key(ch))
-    tail = "%s:N=%d:%s" % (fl.chain_key(ch), n_values, "pairs" if pairs else "bare")
-    for drv, bs, form, copy_buf in driver_list(n_values, k):
-        out = outcome(lambda: fl.drive_chain(ch, n_values, pairs, drv, bs, copy_buf=copy_buf, form=form),
+    tail = "%s:N=%d:%s" % (fl.chain_key(ch), n_values, pairs)
+    for drv, bs, form, copy_buf, place in driver_list(n_values, k, reduced=(pairs == "pairs")):
+        out = outcome(lambda: fl.drive_chain(ch, n_values, pairs, drv, bs, copy_buf=copy_buf, form=form, place=place),
                       flowlib.project)
-        ctx.case(["chain", drv, bs, form, ch, n_values, pairs], nontrivial=n_values > 0)
+        ctx.case(["chain", drv, bs, form, place, ch, n_values, pairs], nontrivial=n_values > 0)
         if out != exp:
             kind = out if isinstance(out, str) else "results"
-            mini.fail("chain:%s:%s" % (drv, kind.replace(" ", ":")), size,
-                      tail + (":bufsize=" + bs_str(bs) if drv == "split" else ""),
-                      {"chain": ch, "N": n_values, "pairs": pairs, "driver": drv, "bufsize": bs, "form": form,
-                       "expected": exp, "observed": out})
+            name = drv if place == "alone" else "split-with-siblings"
+            mini.fail("chain:%s:%s" % (name, kind.replace(" ", ":")), size,
+                      tail + (":bufsize=" + bs_str(bs) if drv == "split" else "") +
+                      (":" + place if place != "alone" else ""),
+                      {"chain": ch, "N": n_values, "flow": pairs, "driver": drv, "bufsize": bs, "form": form,
+                       "place": place, "expected": exp, "observed": out})
     # what reaches the accumulator
     acc = fl.RecAcc(fl.build_acc(ch["acc"]))
     out = outcome(lambda: fl.drive_chain(ch, n_values, pairs, "fill_compute_seq", acc=acc), flowlib.project)
@@ -85,7 +98,7 @@ def replay_chain(ctx, mini, rec, k):
     exp_reach = [flowlib.norm_spec_val(v) for v in rec["reach"]]
     ctx.case(["reach", ch, n_values, pairs], nontrivial=n_values > 0)
     if reached != exp_reach:
-        mini.fail("chain:reach", size, tail, {"chain": ch, "N": n_values, "pairs": pairs, "expected": exp_reach,
+        mini.fail("chain:reach", size, tail, {"chain": ch, "N": n_values, "flow": pairs, "expected": exp_reach,
                                                "observed": reached})
 
 
@@ -112,12 +125,12 @@ def same(a, b):
 def replay_extra(ctx, mini, rec, k):
     """Framework accumulators the spec does not model: the oracle is the accumulator itself filled with the
     values the spec says reach it (checked on the recording proxy first)."""
-    ch, n_values, pairs = rec["ch"], rec["N"], rec["pairs"]
+    ch, n_values, pairs = rec["ch"], rec["N"], rec["fk"]
     if ch["post"] or ch["acc"] != "store1":
         return
     name, make = extra_accumulators()[k % 5]
     size = (len(ch["pre"]), n_values, fl.chain_key(ch))
-    tail = "%s:%s:N=%d:%s" % (name, fl.chain_key(ch), n_values, "pairs" if pairs else "bare")
+    tail = "%s:%s:N=%d:%s" % (name, fl.chain_key(ch), n_values, pairs)
     proxy = fl.RecAcc(make())
     outcome(lambda: fl.drive_chain(ch, n_values, pairs, "fill_compute_seq", acc=proxy), lambda v: v)
     if [flowlib.project(v) for v in proxy.reached] != [flowlib.norm_spec_val(v) for v in rec["reach"]]:
@@ -130,14 +143,15 @@ def replay_extra(ctx, mini, rec, k):
             a.fill(v)
         return list(a.compute())
     exp = outcome(direct, lambda v: v)
-    for drv, bs, form, copy_buf in driver_list(n_values, k):
-        out = outcome(lambda: fl.drive_chain(ch, n_values, pairs, drv, bs, acc=make(), copy_buf=copy_buf, form=form),
-                      lambda v: v)
-        ctx.case(["extra", name, drv, bs, form, ch, n_values, pairs], nontrivial=n_values > 0)
+    for drv, bs, form, copy_buf, place in driver_list(n_values, k):
+        out = outcome(lambda: fl.drive_chain(ch, n_values, pairs, drv, bs, acc=make(), copy_buf=copy_buf, form=form,
+                                             place=place), lambda v: v)
+        ctx.case(["extra", name, drv, bs, form, place, ch, n_values, pairs], nontrivial=n_values > 0)
         ok = (out == exp) if isinstance(out, str) or isinstance(exp, str) else \
             (len(out) == len(exp) and all(same(x, y) for x, y in zip(out, exp)))
         if not ok:
-            mini.fail("extra:%s:%s" % (name, drv), size, tail + (":bufsize=" + bs_str(bs) if drv == "split" else ""),
+            mini.fail("extra:%s:%s" % (name, drv if place == "alone" else "split-with-siblings"), size,
+                      tail + (":bufsize=" + bs_str(bs) if drv == "split" else "") + (":" + place if place != "alone" else ""),
                       {"chain": ch, "N": n_values, "pairs": pairs, "driver": drv, "bufsize": bs,
                        "expected": repr(exp), "observed": repr(out)})
 
@@ -342,8 +356,18 @@ def record_real_kinds(ctx, mini, table):
 
 
 # ------------------------------------------------------------------ random chains (C2S)
+def random_stage(rnd, alphabet):
+    k = rnd.choice(alphabet)
+    if k == "cfilter":
+        return {"t": "cfilter", "k": rnd.choice(["odd", "variable", "t", "k", "output"]), "form": rnd.choice(["str", "fn"])}
+    if k == "crunif":
+        return {"t": "crunif", "k": rnd.choice(["odd", "variable", "t", "k"]), "f": rnd.choice(["inc", "dbl", "drop", "tag"])}
+    return flowlib.random_stage(rnd, [k])
+
+
 def random_chain(rnd):
-    pre = [flowlib.random_stage(rnd, ["map", "map", "filter", "slice", "slice", "runif"]) for _ in range(rnd.randint(0, 4))]
+    pre = [random_stage(rnd, ["map", "map", "filter", "slice", "slice", "runif", "cfilter", "cfilter", "crunif"])
+           for _ in range(rnd.randint(0, 4))]
     pre = [st for st in pre if st.get("f") != "id"]
     post = [flowlib.random_stage(rnd, ["map", "filter", "slice", "count", "sum"]) for _ in range(rnd.randint(0, 2))]
     post = [st for st in post if st.get("f") != "id"]
@@ -354,20 +378,24 @@ def record_random(ctx, mini, rnd, count):
     trace = []
     for _ in range(count):
         ch = random_chain(rnd)
-        n_values, pairs = rnd.randint(0, 12), rnd.random() < 0.6
+        n_values, pairs = rnd.randint(0, 12), rnd.choice(["bare", "pairs", "ctx", "ctx"])
         drv = rnd.choice(["run", "fill_compute_seq", "fill_seq", "split", "split", "split"])
         bs = rnd.choice(bufsizes(n_values)) if drv == "split" else NONE
-        out = outcome(lambda: fl.drive_chain(ch, n_values, pairs, drv, bs, copy_buf=rnd.random() < 0.7,
-                                             form=rnd.choice(["tuple", "fcseq"])), flowlib.project)
+        place = rnd.choice(["alone", "first", "middle", "middle", "last"]) if drv == "split" else "alone"
+        copy_buf = place != "alone" or rnd.random() < 0.7
+        form = rnd.choice(["tuple", "fcseq"])
+        out = outcome(lambda: fl.drive_chain(ch, n_values, pairs, drv, bs, copy_buf=copy_buf, form=form, place=place),
+                      flowlib.project)
         if isinstance(out, str):
-            trace.append({"e": out, "ch": ch, "N": n_values, "pairs": pairs, "drv": drv, "bs": bs})
+            trace.append({"e": out, "ch": ch, "N": n_values, "fk": pairs, "drv": drv, "bs": bs, "place": place})
         else:
-            trace.append({"e": "out", "ch": ch, "N": n_values, "pairs": pairs, "drv": drv, "bs": bs, "out": out})
+            trace.append({"e": "out", "ch": ch, "N": n_values, "fk": pairs, "drv": drv, "bs": bs, "place": place,
+                          "out": out})
         if rnd.random() < 0.3:
             acc = fl.RecAcc(fl.build_acc(ch["acc"]))
             r = outcome(lambda: fl.drive_chain(ch, n_values, pairs, "fill_compute_seq", acc=acc), flowlib.project)
             if not isinstance(r, str):
-                trace.append({"e": "reach", "ch": ch, "N": n_values, "pairs": pairs,
+                trace.append({"e": "reach", "ch": ch, "N": n_values, "fk": pairs,
                               "reach": [flowlib.project(v) for v in acc.reached]})
     return trace
 
@@ -398,6 +426,11 @@ def run(ctx):
     ctx.mc("FillSeq", "FillSeq_%s.cfg" % tag)
     # per-action coverage (vacuity guard) on a small configuration: -coverage doubles the cost of the large one
     ctx.mc("FillSeq", "FillSeq_cover.cfg", coverage=True, must_cover=actions)
+    # a Split that hands one shared copy of the block to its branches must be rejected (vacuity guard for `place`)
+    shared = ctx.mc("FillSeq", "FillSeq_sharedcopy.cfg", expect_violation="report")
+    if shared.violated is None:
+        raise core.MachineryError("FillSeq.tla accepts a Split that shares one buffer copy between its branches")
+    ctx.extra["shared_copy_variant_rejected_by"] = shared.violated
     if ctx.thorough:
         ctx.mc("FillSeq", "FillSeq_wide.cfg")
         ctx.mc("FillSeq", "FillSeq_deep.cfg")       # three pre elements
